@@ -33,7 +33,7 @@ ASSUMPTIONS = [
     "data_ids are truthy",
 ]
 
-ROUTES = ["add", "add:explicit-id", "append_child", "prepend_child", "prepend_sibling", "append_sibling", "add_node", "add_node:deep",
+ROUTES = ["remove:keep_children:with_clones", "add", "add:explicit-id", "append_child", "prepend_child", "prepend_sibling", "append_sibling", "add_node", "add_node:deep",
           "copy_to", "copy_to:children", "add_tree", "move", "remove:keep_children", "rename", "set_data:data", "set_data:id",
           "set_data:with_clones"]
 
@@ -101,6 +101,14 @@ def collision_ops(eng):
                     if y is not x and isinstance(c.data_id, (str, int)):
                         out.append(("set_data:with_clones", ["set_data", ref(y), None, c.data_id, True, False]))
                         break
+    # un-nesting a whole clone group (also nested in each other)
+    if not eng.typed:
+        seen = set()
+        for m in pre:
+            if m.data_id in seen or len(mt.group(m.data_id)) < 2:
+                continue
+            seen.add(m.data_id)
+            out.append(("remove:keep_children:with_clones", ["remove", ref(m), True, True]))
     # add(tree): tree2's top nodes vs children of some parent
     tops2 = {t.data_id for t in eng.model2.root.children}
     for p in parents:
@@ -246,6 +254,18 @@ def hyp_routes(draw, tier):
     typed = draw(st.sampled_from([False, False, True]))
     case = draw(gen_ops.histories(typed=typed, max_ops=8, max_nodes=14, kinds=["add", "add_node", "copy_to", "move", "set_data", "remove"]))
     case["pick"] = draw(st.integers(0, 50))
+    if not typed and draw(st.sampled_from([0, 0, 1])):
+        # directed: clones nested in each other whose un-nested (grand)children collide one or two levels up
+        g, x = draw(st.sampled_from([("e", "f"), ("a", "b"), ("c", "d")]))
+        inner = [g, [[x, []]]] if draw(st.booleans()) else [g, [[g, [[x, []]]]]]
+        pat = [[g, [inner, ["a1", []]]], [x, []]]
+        host = draw(st.sampled_from(["top", "below"]))
+        if host == "top" and all(n[0] not in (g, x) for n in case["spec"]):
+            case["spec"] = case["spec"] + pat
+            case["ops"] = []
+        elif host == "below":
+            case["spec"] = case["spec"] + [["zz", pat]]
+            case["ops"] = []
     # make tree2 share labels with tree 1, so add(tree) collides often
     return case
 
